@@ -515,7 +515,11 @@ func Main(root string) {
 //
 // Only "open" lines suppress anything; "fixed" lines are documentation.
 func loadFindings(root string) ([]Finding, error) {
-	b, err := os.ReadFile(filepath.Join(root, "known_findings.txt"))
+	path := os.Getenv("VERIF_FINDINGS")
+	if path == "" {
+		path = filepath.Join(root, "known_findings.txt")
+	}
+	b, err := os.ReadFile(path)
 	if err != nil {
 		if os.IsNotExist(err) {
 			return nil, nil
